@@ -424,6 +424,20 @@ def run(prop, tier, seed, repo, jobs):
                         inconclusive.append('%s: %s; not reproduced natively (replay %s)' % (ob['name'], ob.get('detail'), rpath))
         except Exception as e:
             inconclusive.append('build future: %s' % e)
+    if prop == 'C20':
+        # "requesting an aggregate = requesting its dependencies" starts in the resolver: main() hands the engine the reference closure for
+        # an aggregate on the command line and for the targets it lists requested instead (project families of the resolver checks)
+        try:
+            from . import mainrun
+            st = mainrun.stage('C20', tier, repo, jobs)
+            violations += st['violations']
+            inconclusive += st['inconclusive']
+            samples += st['samples'][:4]
+            nq += st['nob']
+            nunsat += st['ndis']
+            fns |= st['fns']
+        except Exception as e:   # pragma: no cover
+            inconclusive.append('main() stage failed: %s' % e)
     # exit path of main(): terminate() after engine::run on every path (source-derived, see maintail.py)
     if prop in ('C07', 'C10', 'C11'):
         try:
